@@ -16,13 +16,18 @@ pub struct SeqDomain {
     pub owns: fn(&Violation) -> bool,
     pub nontrivial: fn(&SeqRun, &SeqCase) -> bool,
     /// adjust the decoded case (force a final flush, add reopen params, make read-only, ...)
-    pub tweak: fn(&mut SeqCase, &RawCase, u8),
+    pub tweak: fn(&mut SeqCase, &RawCase, u8, &Exclusions),
+    /// static tags of the case, attached to every violation (case predicates of known findings)
+    pub case_tags: fn(&SeqCase) -> Vec<String>,
     pub extra_classes: fn(&SeqRun, &SeqCase) -> Vec<String>,
     pub max_sched: usize,
     pub max_extra: usize,
 }
 
-pub fn no_tweak(_c: &mut SeqCase, _r: &RawCase, _m: u8) {}
+pub fn no_tweak(_c: &mut SeqCase, _r: &RawCase, _m: u8, _e: &Exclusions) {}
+pub fn no_tags(_c: &SeqCase) -> Vec<String> {
+    vec![]
+}
 pub fn no_classes(_r: &SeqRun, _c: &SeqCase) -> Vec<String> {
     vec![]
 }
@@ -40,10 +45,10 @@ impl Domain for SeqDomain {
     fn strategy(&self, _tier: Tier) -> BoxedStrategy<RawCase> {
         raw_strategy(24, (self.profile)().max_ops, self.max_sched, self.max_extra).boxed()
     }
-    fn decode(&self, raw: &RawCase, _excl: &Exclusions) -> Value {
+    fn decode(&self, raw: &RawCase, excl: &Exclusions) -> Value {
         let d = gen::decode_seq(raw, &(self.profile)());
         let mut case = d.case;
-        (self.tweak)(&mut case, raw, d.max_bs_bits);
+        (self.tweak)(&mut case, raw, d.max_bs_bits, excl);
         serde_json::to_value(case).unwrap()
     }
     fn run(&self, case: &Value, _excl: &Exclusions) -> CaseResult {
@@ -52,14 +57,22 @@ impl Domain for SeqDomain {
             Err(r) => return r,
         };
         let owns = self.owns;
+        let tags = (self.case_tags)(&case);
         let (run, verdict) = run_owned(&case, &(self.cfg)(), &|v| owns(v));
+        let verdict = match verdict {
+            Verdict::Violation(mut v) => {
+                v.tags.extend(tags.iter().cloned());
+                Verdict::Violation(v)
+            }
+            o => o,
+        };
         let mut classes = seq_classes(&run.stats, &case);
         classes.extend((self.extra_classes)(&run, &case));
         CaseResult {
             verdict,
             nontrivial: (self.nontrivial)(&run, &case),
             classes,
-            excluded: vec![],
+            excluded: case.excluded.clone(),
             counters: vec![],
         }
     }
